@@ -29,4 +29,14 @@ PLAN = {
         "assumptions": COMMON_ASSUME + ["oracle = transitive closure of subClassOf / disjointWith read from astool/*.jsonld by /verif/oracle/vocab_oracle.py"],
         "tiers": {"quick": {"params": {}, "timeout_s": 600}, "thorough": {"params": {}, "timeout_s": 1200}},
     },
+    "C09": {
+        "level_text": "For every request type of the default side-effect paths (13 inbox activity types incl. auto-accept/reject Follow and inbox forwarding, outbox posts, GET handler) with symbolic ids that may alias freely, and one injected failure at every Database/Transport/NewTransport/callback call position (thorough: two), a lock monitor inside the application-supplied Database asserts at every call: Unlock only of a held id, no Lock of an id already held (solver query over aliasing), every other Database call except NewID under some held lock, and no lock held when the handler returns.",
+        "level_note": "Trusted: symgo SSA semantics, stdlib models (json as tree handles, url.Parse as uninterpreted functions), cvc5; application contract assumed: Lock/Unlock/NewID as documented, Get returns a value or an error; remote documents and stored values are drawn from the menus in harness/pub/zz_vf_scen.go",
+        "pkg": "./pub",
+        "explanation": EXPL + "C09: lock-discipline monitor in the harness Database over all paths of each request type; ids are symbolic IRIs (aliasing decided by the solver), fault positions are decisions.",
+        "bounds": "quick: 1 object per activity (IRI or embedded), 1 'to' recipient, 1 actor, at most 1 injected fault per request, recursion limits 1; thorough: 2 objects, at most 2 faults",
+        "outside": "more than 2 objects/targets; recursion limits > 1; application callbacks that themselves call the Database",
+        "assumptions": COMMON_ASSUME + ["NewID returns fresh pairwise distinct ids", "Owns/Exists/InboxContains are functions of the id (uninterpreted)", "IRIs are absolute https IRIs in URL-normal form"],
+        "tiers": {"quick": {"params": {"faults": 1, "nobj": 1}, "timeout_s": 1500}, "thorough": {"params": {"faults": 2, "nobj": 2}, "timeout_s": 6000}},
+    },
 }
